@@ -20,8 +20,10 @@ trap 'git -C $wt checkout -q -- . ; git -C $wt clean -fdq tests src 2>/dev/null'
 # the harness as COMMITTED in /verif (edits in progress in the working tree must not leak into a slot)
 rm -rf $sb/harness.new && mkdir -p $sb/harness.new && git -C /verif archive HEAD harness | tar -x -C $sb/harness.new && rsync -a --delete --checksum $sb/harness.new/harness/ $sb/harness/ && rm -rf $sb/harness.new
 sed -i "s#path = \"/repo\"#path = \"$wt\"#" $sb/harness/Cargo.toml
-suite=$(cd $wt && CARGO_TARGET_DIR=$sb/rtarget cargo test --workspace --no-fail-fast --offline 2>&1 | grep -E '^test result' | head -1)
-echo "SUITE: $suite"
+if [ -z "${SB_NO_SUITE:-}" ]; then
+  suite=$(cd $wt && CARGO_TARGET_DIR=$sb/rtarget cargo test --workspace --no-fail-fast --offline 2>&1 | grep -E '^test result' | head -1)
+  echo "SUITE: $suite"
+fi
 if ! (cd $sb/harness && CARGO_TARGET_DIR=$sb/target cargo build --release --offline >$sb/build.log 2>&1); then
   echo "HARNESS-BUILD-FAILED"; tail -15 $sb/build.log; exit 2
 fi
